@@ -170,12 +170,14 @@ def _unurl($n): _c14in($n) as $s
     , ($s | try (from_urlpath | _c14s($n;"path")) catch _c14e($n;"path")) )
   | empty;
 def _to($f): if $f == "json" then tojson elif $f == "jq" then to_jq elif $f == "jsonl" then to_jsonl elif $f == "yaml" then to_yaml
-  elif $f == "toml" then to_toml elif $f == "csv" then to_csv elif $f == "xml" or $f == "xmla" then to_xml
+  elif $f == "toml" then to_toml elif $f == "csv" then to_csv elif $f == "xml" or $f == "xmla" or $f == "xmlseq" then to_xml
   elif $f == "urlquery" then to_urlquery elif $f == "json_i" then tojson({indent:2}) elif $f == "jq_i" then to_jq({indent:2})
   else error("ser") end;
 def _from($f): if $f == "json" or $f == "json_i" then fromjson elif $f == "jq" or $f == "jq_i" then from_jq elif $f == "jsonl" then from_jsonl
   elif $f == "yaml" then from_yaml elif $f == "toml" then from_toml elif $f == "csv" then from_csv elif $f == "xml" then from_xml
-  elif $f == "xmla" then from_xml({array:true}) elif $f == "urlquery" then from_urlquery else error("ser") end;
+  elif $f == "xmla" then from_xml({array:true})
+  elif $f == "xmlseq" then (from_xml({seq:true}) | to_xml | from_xml({array:true}))
+  elif $f == "urlquery" then from_urlquery else error("ser") end;
 def _ser($n; $f): _c14in($n) | try (_to($f) | _c14s($n;"txt") | _from($f) | _c14s($n;"rt")) catch _c14e($n;"err") | empty;
 def _bad($n; $f): _c14in($n) | try (_from($f) | _c14s($n;"out")) catch _c14e($n;"out") | empty;
 `
